@@ -64,19 +64,22 @@ SPEC = {
     "lean_modules": ["RsslVerif.Thm.C06"],
     "theorems": [T + n for n in [
         "slice_cost_table", "alloc_shape_as_modelled", "params_of_targets_ok", "params_of_targets", "index_ranges_tile",
-        "inline_offsets_tile", "binding_complete", "inline_buffers_correct", "assign_ok_of_root_kinds",
+        "inline_offsets_tile", "binding_complete", "inline_buffers_correct", "assign_never_panics",
+        "register_class_iff_resource", "non_resource_global_is_inert",
         "compile_shape_as_modelled", "per_pipeline_default_group", "fresh_module_unbound", "per_pipeline_tiling",
         "by_name_agrees_with_whole_file", "metadata_is_the_allocation"]],
     "harness": "c06",
     "level_text": "Proof: the allocator model (a fold with two counters) is proved, for every declaration sequence, default group "
                   "and parameter set compile() can build, to hand out per-group index ranges that tile [0,total) in declaration "
                   "order with the required lengths, 8-byte inline offsets that tile the inline block, one sorted inline block "
-                  "per group placed after all index slots, and bindings for exactly the bindable declarations. The driver model "
+                  "per group placed after all index slots, and bindings for exactly the bindable declarations (cbuffers and "
+                  "globals of a resource kind; a global of a non-resource object kind such as RayDesc takes nothing), and never "
+                  "to panic (assign_never_panics, unconditional since fix 774c0b4). The driver model "
                   "(compile / build_pipeline / select_pipeline / the guard of assign_api_bindings / the metadata construction of "
                   "both exporters) is proved, for every list of pipelines, mode and target, to return for the k-th requested "
                   "pipeline exactly the allocator run with that pipeline's own default group (0 in no-pipeline mode), "
                   "independent of the other pipelines, and metadata that lists per group exactly that allocation (the Metal "
-                  "per-group sort is the identity because the ranges tile). Tables and 46 statement-level source facts are "
+                  "per-group sort is the identity because the ranges tile). Tables and 48 statement-level source facts are "
                   "re-extracted from the source each run; the allocator model is compared with the real assign_api_bindings on "
                   "generated declaration sequences and the driver model with the real rssl::compile on generated shader files "
                   "(4 target configurations x whole file / every pipeline by name / unknown name / no-pipeline mode), with the "
@@ -85,7 +88,8 @@ SPEC = {
     "shrink": shrink,
     "rule": "C06.assign requests = (parameter set, default group, declaration sequence) run through the real front end and "
             "Module::assign_api_bindings; exhaustive single declarations over every bindable kind x length x group x "
-            "static-sampler, exhaustive pairs (thorough: full class alphabet) and random sequences of length 3-12, each on "
+            "static-sampler and over the non-resource object kinds that can be declared (RayDesc, RayQuery, TriangleStream) "
+            "x length x group, exhaustive pairs (thorough: full class alphabet) and random sequences of length 3-12, each on "
             "the 4 parameter sets x default group 0..2. C06.compile requests = (target configuration, mode, pipelines with "
             "their default groups 0..5 / absent, kinds and shared entry points, 0-9 named declarations in source order with "
             "the spelling of their group: attribute / register space / vk::binding / attribute overriding a register space, "
@@ -96,7 +100,7 @@ SPEC = {
     "trusted_base": [
         "Lean 4.33 kernel; axioms propext / Classical.choice / Quot.sound only (audited by #print axioms)",
         "tools/translate.py (SlotTables: ObjectType variants, slice_cost arm, is_buffer_address, get_register_type, "
-        "AssignBindingsParams::default, compile()'s binding_params, 14 statement facts about process_definition) and "
+        "AssignBindingsParams::default, compile()'s binding_params, 16 statement facts about process_definition) and "
         "tools/gens/c06.py (SlotCompile: 32 statement facts about compile / build_pipeline / select_pipeline / the typer's "
         "explicit group and DefaultBindGroup / both exporters' analyse_bindings, register_binding, inline block, Metal "
         "group limit and sort) -- re-run on /repo's working tree every time; the facts are regular expressions over "
@@ -104,7 +108,8 @@ SPEC = {
         "hand-written Model/Slots.lean mirrors process_definition and Model/SlotsCompile.lean mirrors compile / "
         "build_pipeline / select_pipeline / register_binding / generate_inline_constant_buffers / the Metal sort; "
         "tied to the code by the source facts and the two correspondence streams only",
-        "Spec/Slots.lean: our reading of the property (which kinds are doubled on Metal; 8 bytes per buffer address); "
+        "Spec/Slots.lean: our reading of the property (which object kinds are resources, i.e. bindable; which kinds are "
+        "doubled on Metal; 8 bytes per buffer address); "
         "Lemmas/SlotsCompile.requestedDefaults: which pipelines a call returns and that no-pipeline mode uses group 0; "
         "Lemmas/SlotsMeta.entriesOf: what the metadata of a group must list",
         "harness/src/c06/e2e.rs renders the request to source text; the request -> model-declaration mapping of "
